@@ -31,6 +31,27 @@ OUTSIDE = ["HTTP/URL/form parsing", "non-ASCII handling inside aiohttp", "the TC
 
 K = KlongInterpreter()
 LOG = []
+SEEN = []
+
+
+def _plain(v):
+    import numpy as _np
+    from klongpy.core import KLONG_UNDEFINED
+    if v is KLONG_UNDEFINED:
+        return None                         # a JSON null is delivered as :undefined
+    if isinstance(v, _np.ndarray):
+        return [_plain(e) for e in v]
+    if isinstance(v, _np.generic):
+        return v.item()
+    if isinstance(v, list):
+        return [_plain(e) for e in v]
+    if isinstance(v, dict):
+        return {kk: _plain(e) for kk, e in v.items()}
+    return v
+
+
+K['wsrec'] = lambda x: SEEN.append(_plain(x)) or len(SEEN)
+K('wsm::{x;wsrec(y)}')                      # the websocket handler is a Klong function (so the real KGFnWrapper path runs)
 
 
 def _rec(x, y):
@@ -154,17 +175,18 @@ def _unpatch():
     _saved.clear()
 
 
-def routes(ng: int, npost: int, r1: int, m1: int, r2: int, m2: int, bad: int, redefine: bool, pa: int, pb: int) -> bool:
+def routes(ng: int, npost: int, r1: int, m1: int, r2: int, m2: int, bad: int, redefine: bool, shared: bool, pb: int) -> bool:
     """
     pre: 0 <= ng <= 3 and 0 <= npost <= 3 and ng == CFG.get('ng', ng) and npost == CFG.get('npost', npost)
     pre: 0 <= r1 <= 2 and 0 <= r2 <= 1
     pre: 0 <= m1 <= 1 and 0 <= m2 <= 1
     pre: -1 <= bad <= 1
-    pre: 0 <= pa <= 3 and pb == 0
+    pre: pb == 0
     post: _
     """
     # r2: 0 = the same route again, 1 = the next route;  bad: -1 nobody raises, 0 / 1 = the handler of the first / second request raises
-    # ng GET routes /g0.. and npost POST routes /p0..; route i is handled by handler number i (GET) / 10+i (POST);
+    # ng GET routes /g0.. and npost POST routes /p0.. - or, when `shared`, the SAME paths /r0.. in both tables;
+    # route i is handled by handler number i (GET) / 10+i (POST);
     # two requests (route r, method m); handler number `bad` raises; the handler of the first request may be redefined in between
     enter()
     _patch()
@@ -175,10 +197,11 @@ def routes(ng: int, npost: int, r1: int, m1: int, r2: int, m2: int, bad: int, re
             ctx.popleft()
         K('get:::{}'); K('post:::{}')
         ng = pick([0, 1, 2, 3], ng); npost = pick([0, 1, 2, 3], npost)
+        gp, pp = ("/r%d", "/r%d") if shared else ("/g%d", "/p%d")
         for i in range(ng):
-            K('hg%d::{rec(%d;x)}' % (i, i)); K('get,"/g%d",hg%d' % (i, i))
+            K('hg%d::{rec(%d;x)}' % (i, i)); K(('get,"' + gp + '",hg%d') % (i, i))
         for i in range(npost):
-            K('hp%d::{rec(%d;x)}' % (i, 10 + i)); K('post,"/p%d",hp%d' % (i, i))
+            K('hp%d::{rec(%d;x)}' % (i, 10 + i)); K(('post,"' + pp + '",hp%d') % (i, i))
         # entries the server must skip: a dyad and a function call
         K('dy::{x+y}'); K('get,"/dyad",dy')
         r2 = r1 if r2 == 0 else (r1 + 1) % 3
@@ -192,13 +215,13 @@ def routes(ng: int, npost: int, r1: int, m1: int, r2: int, m2: int, bad: int, re
         if app is None or _Site.sites[0].started != 1 or handle.port != 8080 or handle.bind is not None:
             return verdict(False)
         gets = dict(app.router.get); posts = dict(app.router.post)
-        if sorted(gets) != ["/g%d" % i for i in range(ng)] or sorted(posts) != ["/p%d" % i for i in range(npost)]:
+        if sorted(gets) != [gp % i for i in range(ng)] or sorted(posts) != [pp % i for i in range(npost)]:
             return verdict(False)                       # exactly the arity-1 handlers are registered (no /dyad)
         params = [{}, {"a": "1"}, {"a": "x y", "b": ""}, {"k": "é\n"}]
-        reqs = [(r1, m1, pick(params, pa)), (r2, m2, params[2])]
+        reqs = [(r1, m1, params[(r1 + 2 * m1) % 4]), (r2, m2, params[2])]
         for qi, (r, m, prm) in enumerate(reqs):
             table = gets if m == 0 else posts
-            route = ("/g%d" if m == 0 else "/p%d") % r
+            route = (gp if m == 0 else pp) % r
             if route not in table:
                 continue                                # unregistered path: nothing to call (the router decides; outside)
             hid = r if m == 0 else 10 + r
@@ -223,7 +246,7 @@ def routes(ng: int, npost: int, r1: int, m1: int, r2: int, m2: int, bad: int, re
         # a wrong method on a registered closure is answered with 400 and reaches no handler
         if ng > 0:
             n0 = len(LOG)
-            kind, resp = step(gets["/g0"](_Req("POST", {})))
+            kind, resp = step(gets[gp % 0](_Req("POST", {})))
             if kind != 'ret' or resp.status != 400 or len(LOG) != n0:
                 return verdict(False)
         # .webc stops it, once
@@ -238,7 +261,8 @@ def routes(ng: int, npost: int, r1: int, m1: int, r2: int, m2: int, bad: int, re
 
 
 # ------------------------------------------------------------------------------------------------ websocket messages
-MSGS = ['1', '"text"', '[1, 2, [3]]', '{"k": [1, "v"], "n": null}', '2.5', 'true']
+MSGS = ['1', '"text"', '[1, 2, [3]]', '{"k": [1, "v"], "n": null}', '2.5', 'true',
+        '0', '""', '[]', '{}', 'false', '0.0', 'null']          # every JSON kind, including the values that are falsy in Python
 
 
 class _Closed(Exception):
@@ -276,7 +300,7 @@ def ws_messages(n: int, i0: int, i1: int, i2: int, fail: int) -> bool:
     # n inbound messages in a symbolic order; each is decoded and handed to .ws.m exactly once, in arrival order;
     # on_message hooks may fail (fail = index) without losing the message
     enter()
-    seen = []; hooks = []
+    hooks = []
     n = pick([0, 1, 2, 3], n)
     script = [pick(MSGS, i) for i in [i0, i1, i2][:n]]
     sock = _Sock(script)
@@ -286,18 +310,8 @@ def ws_messages(n: int, i0: int, i1: int, i2: int, fail: int) -> bool:
         def call_soon_threadsafe(self, fn, *a):
             fn(*a)
     k = K
-    def _plain(v):
-        import numpy as _np
-        if isinstance(v, _np.ndarray):
-            return [_plain(e) for e in v]
-        if isinstance(v, _np.generic):
-            return v.item()
-        if isinstance(v, list):
-            return [_plain(e) for e in v]
-        if isinstance(v, dict):
-            return {kk: _plain(e) for kk, e in v.items()}
-        return v
-    k['.ws.m'] = lambda x, y: seen.append(_plain(y)) or len(seen)
+    del SEEN[:]; seen = SEEN
+    k['.ws.m'] = k._context[KGSym('wsm')]
 
     async def run_cmd(klongloop, klong, sym, command, nc):
         fut = Fut()
